@@ -218,6 +218,12 @@ Definition regex_map_t1 : string := "mapFromArrays(arrayFilter( (x,y) -> x != ''
 Definition regex_map_t2 : string := "] as re_lbls_0,  arrayMap(x -> x[length(x)], extractAllGroupsHorizontal(string, ".
 Definition regex_map_t3 : string := ")) as re_vals_0),arrayFilter((x,y) -> x != '' AND y != '', re_vals_0, re_lbls_0))".
 
+Fixpoint strs_eqb (a b : list string) : bool :=
+  match a, b with
+  | [], [] => true
+  | x :: a', y :: b' => String.eqb x y && strs_eqb a' b'
+  | _, _ => false
+  end.
 (* string literals of a list of objects *)
 Fixpoint str_lits (l : list expr) : option (list string) :=
   match l with
@@ -487,15 +493,19 @@ Section EVAL.
           | _, _ => None end
         else None
       | [a; b; c0] =>
-        (* sqlJsonParser.path2Sql: if(JSONType(doc, p1,...,pn as jp) == 'String', JSONExtractString(doc, jp), JSONExtractRaw(doc, jp)) *)
+        (* sqlJsonParser.path2Sql: if(JSONType(doc, p1,...,pn) == 'String', JSONExtractString(doc, p1,...,pn), JSONExtractRaw(doc, p1,...,pn)):
+           the string at the path, or the raw text of any other value, '' when the path is missing. The SAME path and document
+           in the three calls (since the repair json-path-alias; the text was `p1,...,pn as jp_N` with jp_N in the other two
+           calls, where the alias names the last argument only - a reading this clause no longer has to paper over) *)
         if String.eqb name "if" then
           match a, b, c0 with
-          | Sep sep [Fn jt [doc; Sep sep2 [Sep sep3 path; _]]; StrV t], Fn f1 _, Fn f2 _ =>
-            if String.eqb sep " == " && String.eqb jt "JSONType" && String.eqb sep2 " as " && String.eqb sep3 ","
+          | Sep sep [Fn jt [doc; Sep sep3 path]; StrV t], Fn f1 [doc1; Sep sep4 path1], Fn f2 [doc2; Sep sep5 path2] =>
+            if String.eqb sep " == " && String.eqb jt "JSONType" && String.eqb sep3 "," && String.eqb sep4 "," && String.eqb sep5 ","
                && String.eqb t "String" && String.eqb f1 "JSONExtractString" && String.eqb f2 "JSONExtractRaw" then
-              match ev doc g, str_lits path with
-              | Some (VStr s), Some p => Some (VStr (json_get s p))
-              | _, _ => None end
+              match ev doc g, str_lits path, ev doc1 g, str_lits path1, ev doc2 g, str_lits path2 with
+              | Some (VStr s), Some p, Some (VStr s1), Some p1, Some (VStr s2), Some p2 =>
+                if String.eqb s s1 && String.eqb s s2 && strs_eqb p p1 && strs_eqb p p2 then Some (VStr (json_get s p)) else None
+              | _, _, _, _, _, _ => None end
             else None
           | _, _, _ => None end
         else None
